@@ -136,6 +136,8 @@ type WL struct {
 	Pool     string     `json:"pool"`   // pool annotation (dp only)
 	Replicas int        `json:"replicas"`
 	Ranges   [][]string `json:"ranges,omitempty"` // request_ip_range of its pods
+	// AltRanges: request_ip_range after a change of the pod template; incarnations created with an odd C pick use it
+	AltRanges [][]string `json:"alt_ranges,omitempty"`
 	NoObject bool       `json:"no_object"`        // the workload object is never created (orphan pods)
 }
 
